@@ -177,6 +177,46 @@ def run(ctx):
         ctx.sample({k: (v if k not in ('blob', 'inner', 'log') else '<%d octets>' % len(v) if isinstance(v, list) else '<log>') for k, v in ev[j].items()})
     rej = ctx.judge('Trace_Enc', ev, chunk=120)
     ctx.traces += len(ev) - len(rej)
+    bad = {i for i, _ in rej}
+    good = [e for i, e in enumerate(ev) if i not in bad and len(e.get('blob', [])) < 4000]
+    import copy as _copy
+
+    def c_log(fn):
+        def f(e):
+            if e['k'] != 'dec' or e.get('indep_raised'):
+                return None
+            e = _copy.deepcopy(e)
+            return fn(e)
+        return f
+
+    def kdf(e):
+        l = e['log']['esk'][0]
+        if l['kind'] != 'ecdh':
+            return None
+        l['param'][-1] ^= 1
+        l['kdf_input'][-1] ^= 1
+        return e
+
+    def chk(e):
+        l = e['log']['esk'][0]
+        if l['kind'] != 'rsa':
+            return None
+        l['m'][-1] ^= 1
+        return e
+
+    def mdc(e):
+        e['log']['seipd']['sha1_over_all_but_last_20'][0] ^= 1
+        return e
+
+    def inner(e):
+        if not e['inner']:
+            return None
+        e['inner'][-1] ^= 1
+        return e
+    ctx.selftest(lambda b: ctx.judge('Trace_Enc', b), good,
+                 [('KDF parameter block differs (recipient fingerprint)', c_log(kdf)), ('session-key checksum wrong', c_log(chk)), ('MDC over another range', c_log(mdc)),
+                  ('recovered packets differ from the original', c_log(inner)),
+                  ('PGPy round trip changed the file name', lambda e: dict(e, after=dict(e['after'], filename=e['after']['filename'] + [1])) if e['k'] == 'rt' and not e['raised'] else None)], 'C03')
     ctx.extra['events_by_kind'] = {k: sum(1 for e in ev if e['k'] == k) for k in ('rt', 'dec', 'foreign')}
     ctx.extra['scenarios'] = len(scen)
     for idx, clause in rej:
